@@ -409,7 +409,115 @@ func call(fn *ssa.Function, args []value, free []value) value {
 			return mergeCall(fn, args, free)
 		}
 	}
+	if !cfg.NoMerge && len(free) == 0 && autoMergeable(fn) && scalarSymbolic(args) {
+		// small side-effect-free helpers over scalars (a hand-written byte classifier or
+		// case folder): their branches become data (if-then-else terms) instead of forks
+		return mergeCall(fn, args, free)
+	}
 	return callBody(fn, args, free)
+}
+
+// all arguments scalars or strings, at least one of them symbolic
+func scalarSymbolic(args []value) bool {
+	sym := false
+	for _, a := range args {
+		switch x := a.(type) {
+		case bool, int64, string:
+		case *term, symStr, *tab:
+			sym = true
+		case *union:
+			_ = x
+			return false
+		default:
+			return false
+		}
+	}
+	return sym
+}
+
+var autoMergeCache = map[*ssa.Function]int{} // 1 yes, 2 no, 3 in progress
+
+// a function is merged automatically when it (transitively) only computes on scalars and
+// strings: no stores, allocations, maps, channels, goroutines, defers or interface calls, and
+// every static callee is such a function or a modelled pure string helper
+func autoMergeable(fn *ssa.Function) bool {
+	switch autoMergeCache[fn] {
+	case 1:
+		return true
+	case 2, 3:
+		return false
+	}
+	autoMergeCache[fn] = 3
+	ok := autoMergeCheck(fn)
+	if ok {
+		autoMergeCache[fn] = 1
+	} else {
+		autoMergeCache[fn] = 2
+	}
+	return ok
+}
+
+var pureExternals = map[string]bool{"strings.EqualFold": true, "strings.HasPrefix": true, "strings.HasSuffix": true, "strings.ToLower": true, "strings.ToUpper": true,
+	"unicode.IsLetter": true, "unicode.IsDigit": true, "unicode.IsUpper": true, "unicode.IsLower": true, "unicode.ToLower": true, "unicode.ToUpper": true}
+
+func scalarType(t types.Type) bool {
+	switch u := t.Underlying().(type) {
+	case *types.Basic:
+		return u.Info()&(types.IsBoolean|types.IsInteger|types.IsString) != 0
+	case *types.Tuple:
+		for i := 0; i < u.Len(); i++ {
+			if !scalarType(u.At(i).Type()) {
+				return false
+			}
+		}
+		return true
+	}
+	return false
+}
+
+func autoMergeCheck(fn *ssa.Function) bool {
+	if fn.Blocks == nil || fn.Pkg == nil || !interpPkgs[fn.Pkg.Pkg.Path()] || len(fn.FreeVars) > 0 || strings.HasPrefix(fn.Name(), "v") || strings.HasPrefix(fn.Name(), "VH_") {
+		return false
+	}
+	n := 0
+	for _, p := range fn.Params {
+		if !scalarType(p.Type()) {
+			return false
+		}
+	}
+	if !scalarType(fn.Signature.Results()) {
+		return false
+	}
+	for _, b := range fn.Blocks {
+		for _, in := range b.Instrs {
+			n++
+			switch x := in.(type) {
+			case *ssa.Phi, *ssa.BinOp, *ssa.UnOp, *ssa.If, *ssa.Jump, *ssa.Return, *ssa.Convert, *ssa.ChangeType, *ssa.Index, *ssa.Slice, *ssa.DebugRef, *ssa.Extract:
+				if u, ok := in.(*ssa.UnOp); ok && (u.Op == token.MUL || u.Op == token.ARROW) {
+					return false
+				}
+			case *ssa.Call:
+				if x.Call.IsInvoke() {
+					return false
+				}
+				switch f := x.Call.Value.(type) {
+				case *ssa.Builtin:
+					if f.Name() != "len" {
+						return false
+					}
+				case *ssa.Function:
+					if !pureExternals[f.String()] && !(f != fn && autoMergeable(f)) {
+						return false
+					}
+				default:
+					return false
+				}
+			default:
+				return false
+			}
+		}
+	}
+	return n <= 400
 }
 
 func anySymbolic(args []value) bool {
